@@ -1177,6 +1177,8 @@ def replay_run(ctx, case):
             bounded_store_pool_requeue_scenario(e)
         elif c['schedule'] == 'bounded-store-announce':
             bounded_store_pool_announce_scenario(e)
+        elif c['schedule'] == 'clock-step-back':
+            clock_step_back_scenario(e)
         print('scenario %s on %s: %d oracle failures / mismatches' % (c['schedule'], c.get('backend', '-'), e.n))
         return 1 if e.n else 0
     run = Run(_r.Random(0), c['cfg'], script=c['schedule'])
@@ -1439,6 +1441,59 @@ def bounded_store_pool_announce_scenario(ctx):
                          'store_pool=2, relay_pool=None: message %s (announced with timestamp %d while the scheduler was waiting for a store slot inside _check_ready) '
                          'is stored but neither in flight nor in the timetable; timetable %r, active %r, pending gates %r'
                          % (name, ids[name][2], sorted((int(t), h.ids.get(r)) for t, r in q.queued), sorted(h.ids.get(r) for r in q.active_ids), h.gates))
+    finally:
+        h.close()
+
+
+@_directed
+def clock_step_back_scenario(ctx):
+    """the wall clock steps BACK (NTP correction, VM resume) while the queue runs: due times written
+    afterwards are earlier in absolute terms than times the scheduler has already seen; a message
+    re-queued after the step must still not be attempted before the time the backoff chose.
+    Implementation-only (the model's clock is monotone: outside the stated quantifier, judged
+    because the statement itself does not depend on monotonicity)."""
+    h = QH()
+    case = dict(schedule='clock-step-back')
+    try:
+        if h.pending('load'):
+            h.release(h.pending('load')[0], [])
+        h.act_advance(1000)
+        h.act_enqueue('s@example.com', [0])
+        h.release(h.pending('write')[0])
+        h.release(h.pending('relay', 0)[0], ('temp',))
+        h.release(h.pending('incr', 0)[0], 10)
+        h.release(h.pending('set_ts', 0)[0])
+        h.act_advance(10)                                   # A retried on time at 1010
+        if h.pending('get', 0):
+            h.release(h.pending('get', 0)[0])
+        if h.pending('relay', 0):
+            h.release(h.pending('relay', 0)[0], ('ok',))
+        for g in list(h.pending('remove', 0)):
+            h.release(g)
+        # the clock goes back by 600 s
+        h.clock -= 600
+        h.queue.wake.fire(h.clock)
+        h.settle()
+        h.act_enqueue('s@example.com', [6])
+        h.release(h.pending('write')[0])
+        mid = max(v for v in h.ids.values() if v < 1000)
+        h.release(h.pending('relay', mid)[0], ('temp',))
+        h.release(h.pending('incr', mid)[0], 60)
+        h.release(h.pending('set_ts', mid)[0])
+        due = h.due.get(mid)
+        early = []
+        for _ in range(5):
+            h.act_advance(10)
+            if h.pending('get', mid) or len([a for a in h.attempts if a['id'] == mid]) > 1:
+                early.append(h.clock)
+                break
+        ctx.evaluated(('clock-step-back', 1))
+        ctx.count('clock-step-back-scenario')
+        if early and due is not None and early[0] < due:
+            ctx.fail('c12:attempted-before-due', case, 'after the wall clock stepped back by 600 s message %d, re-queued for %r by the backoff, is dispatched at %r' % (mid, due, early[0]))
+        h.act_advance(60)
+        if not (h.pending('get', mid) or len([a for a in h.attempts if a['id'] == mid]) > 1):
+            ctx.fail('c12:stored-message-forgotten', case, 'after the clock step message %d (due %r) is not dispatched at %r' % (mid, due, h.clock))
     finally:
         h.close()
 
